@@ -181,8 +181,13 @@ def rand_iface_spec(r, tt, backend):
                         d = "True"
                 mem.append(("m%s%d" % (camel(r, 1), i), t, d))
             structs.append((e, mem))
-    if r.random() < 0.2:
-        structs.append(("Event" + camel(r) + "Extra", []))  # stateless extra event
+    # stateless extra events: interface structs no transition uses (appended to the machine's events after the table's)
+    taken = set(evs)
+    for _ in range(r.choice([0, 0, 0, 0, 1, 1, 2, 3, 4])):
+        nm = "Event" + camel(r) + r.choice(["Extra", "Tick", "", "Info"])
+        if nm not in taken:
+            taken.add(nm)
+            structs.append((nm, []))
     usertags = {}
     if r.random() < 0.4:
         usertags["StateMachineThread"] = r.choice([0, 1])
@@ -348,9 +353,11 @@ class Runner:
 
             cg.createoutput = co_wrapper
 
-    def generate(self, model, outdir, copy_other=False):
+    def generate(self, model, outdir, copy_other=None):
         """returns (return value, captured fresh code model or None)"""
         G = self.G
+        if copy_other is None:
+            copy_other = bool(model.get("copy_other", False))      # kojen's own default is True: the support sources are copied next to the output
         self.captured = []
         self.captured_out = []
         with quiet():
@@ -533,6 +540,17 @@ def mutate_sm(r, m):
     tt = m["tt"]
     op = r.randrange(9)
     taken = {x for row in tt for x in row}
+
+    def fresh(prefix, old=None, pool=()):
+        """a new name; often one that extends an existing name (EvGo -> EvGoFast, IsReady -> IsReady2): the tags of the
+        new element then begin with the tags of an old one"""
+        base = old or (r.choice(list(pool)) if pool else None)
+        if base and base.lower() != "none" and r.random() < 0.4:
+            for suf in r.sample(["2", "Fast", "X", "Ex", "10"], 5):
+                if base + suf not in taken:
+                    taken.add(base + suf)
+                    return base + suf
+        return names(r, prefix, 1, taken)[0]
     if op == 0 and len(tt) > 1:
         del tt[r.randrange(1, len(tt))]
         what = "remove-row"
@@ -540,29 +558,31 @@ def mutate_sm(r, m):
         states = [row[0] for row in tt]
         evs = [row[1] for row in tt]
         tt.insert(r.randrange(1, len(tt) + 1), [r.choice(states), r.choice(evs), r.choice(states + ["None"]),
-                                                names(r, "On", 1, taken)[0], r.choice(["None", names(r, "Guard", 1, taken)[0]])])
+                                                fresh("On", pool=[row[3] for row in tt]), r.choice(["None", fresh("Guard", pool=[row[4] for row in tt])])])
         what = "add-row"
     elif op == 2:
         old = r.choice([row[0] for row in tt])
-        _rename_in_tt(tt, (0, 2), old, names(r, "State", 1, taken)[0])
+        _rename_in_tt(tt, (0, 2), old, fresh("State", old))
         what = "rename-state"
     elif op == 3:
         old = r.choice([row[1] for row in tt])
-        new = names(r, "Event", 1, taken)[0]
+        new = fresh("Event", old)
         _rename_in_tt(tt, (1,), old, new)
         m["iface"]["structs"] = [((new if s == old else s), mem) for s, mem in m["iface"]["structs"]]
         what = "rename-event"
     elif op == 4:
         acts = [row[3] for row in tt if row[3] and row[3].lower() != "none"]
         if acts:
-            _rename_in_tt(tt, (3,), r.choice(acts), names(r, "On", 1, taken)[0])
+            old = r.choice(acts)
+            _rename_in_tt(tt, (3,), old, fresh("On", old))
         what = "rename-action"
     elif op == 5:
         gs = [row[4] for row in tt if row[4] and row[4].lower() != "none"]
-        if gs:
-            _rename_in_tt(tt, (4,), r.choice(gs), names(r, "Guard", 1, taken)[0])
+        if gs and r.random() < 0.7:
+            old = r.choice(gs)
+            _rename_in_tt(tt, (4,), old, fresh("Guard", old))
         else:
-            tt[r.randrange(len(tt))][4] = names(r, "Guard", 1, taken)[0]
+            tt[r.randrange(len(tt))][4] = fresh("Guard", pool=gs)
         what = "rename-or-add-guard"
     elif op == 6 and len(tt) > 2:
         rest = tt[1:]
@@ -574,7 +594,7 @@ def mutate_sm(r, m):
         what = "change-event-parameters"
     else:
         i = r.randrange(len(tt))
-        tt[i][3] = r.choice(["None", names(r, "On", 1, taken)[0]])
+        tt[i][3] = r.choice(["None", fresh("On", pool=[row[3] for row in tt])])
         tt[i][4] = "None"
         what = "drop-guard-change-action"
     return m, what
